@@ -82,6 +82,24 @@ theorem transform_toM (m : Model α) (X : List (List α)) (n k p : Nat)
   intro l _
   rw [vsub_getD _ _ p hx hμ, getD_lt _ _ _ hi, getD_lt _ _ _ hj]
 
+/-- `center X μ` — the argument `fit` hands to the solver — is the matrix `X - 1·μᵀ` -/
+theorem center_toM (X : List (List α)) (μ : List α) (n p : Nat) (hX : Shape X n p)
+    (hμ : μ.length = p) :
+    Shape (center X μ) n p ∧ toM (center X μ) n p = toM X n p - rowConst n (toV μ p) := by
+  obtain ⟨hXl, hXw⟩ := hX
+  refine ⟨⟨by simp [center, hXl], ?_⟩, ?_⟩
+  · intro x hx
+    simp only [center, List.mem_map] at hx
+    obtain ⟨r, hr, rfl⟩ := hx
+    exact vsub_length _ _ p (hXw r hr) hμ
+  · ext i j
+    have hi : (i : Nat) < X.length := by omega
+    simp only [toM, Matrix.of_apply, Matrix.sub_apply, rowConst, toV]
+    have hrow : (center X μ).getD i [] = vsub X[(i : Nat)] μ := by
+      unfold center
+      rw [getD_lt _ _ _ (by simpa using hi), List.getElem_map]
+    rw [hrow, vsub_getD _ _ p (hXw _ (List.getElem_mem hi)) hμ, getD_lt _ _ _ hi]
+
 theorem vadd_getD (a b : List α) (c : Nat) (ha : a.length = c) (hb : b.length = c) (j : Fin c) :
     (vadd a b).getD j 0 = a.getD j 0 + b.getD j 0 := by
   have h1 : (j : Nat) < a.length := by omega
